@@ -207,3 +207,20 @@ VARIANTS += [
       "                    yield num_to_str(data.objectives[ob])",
       "silent"),
 ]
+
+VARIANTS += [
+    V("statistics-bounds-parsed-as-float",
+      "moptipyapps/binpacking2d/packing_statistics.py",
+      "{o: str_to_num(data[v]) for o, v in self.__objective_bounds}",
+      "{o: float(data[v]) for o, v in self.__objective_bounds}", "fire",
+      "D19.1"),
+    V("result-objectives-parsed-as-int",
+      "moptipyapps/binpacking2d/packing_result.py",
+      "            {n: str_to_num(data[i]) for n, i in self.__objectives\n",
+      "            {n: int(data[i]) for n, i in self.__objectives\n", "fire",
+      "D19.1"),
+    V("silent-statistics-bin-bounds-str-to-int",
+      "moptipyapps/binpacking2d/packing_statistics.py",
+      "{o: int(data[v]) for o, v in self.__bin_bounds}",
+      "{o: int(data[v], 10) for o, v in self.__bin_bounds}", "silent"),
+]
